@@ -30,7 +30,7 @@ Tries == g.wrap /\ N > g.min /\ g.min > 0                                 \* len
 Keeps == Tries /\ ~(N < CN)                                             \* if len(old) < len(new): keep old
 Outcome == [e |-> "rt", raised |-> "none", outtype |-> "bytes",
             flags |-> BaseFlag(g.cls) + (IF Keeps THEN 8 ELSE 0),
-            n |-> N, outlen |-> IF Keeps THEN CN ELSE N, decok |-> Keeps, rawok |-> ~Keeps, eq |-> TRUE, ty |-> TRUE,
+            n |-> N, outlen |-> IF Keeps THEN CN ELSE N, decok |-> Keeps, rawok |-> ~Keeps, eq |-> TRUE, ty |-> TRUE, eq2 |-> TRUE,
             compressed_serde |-> g.wrap]
 Bad(cl) == { cl[i][1] : i \in { j \in DOMAIN cl : ~cl[j][2] } }
 
